@@ -36,3 +36,111 @@ contract("BaseComponent.set_placed_workplace", props=["C13"],
                     ("nothing-else", "forall_obj('BaseComponent', lambda d: implies(not ghost_rel('desc', self, d), d.placed_workplace is old(d.placed_workplace)))"),
                     ("flag", "set_to_all_children")]})
 
+
+define("in_subtree(c, d)", "ghost_rel('desc', c, d)")
+# every component below `c` (c included) has pairwise disjoint child subtrees: the part of the product under c is a tree, not a DAG
+define("subtree_is_tree(c)",
+       "forall_obj('BaseComponent', lambda a: implies(in_subtree(c, a),"
+       "   forall_int(0, len(a.child_component_list), lambda i: forall_int(0, len(a.child_component_list), lambda j: implies(i != j,"
+       "       forall_obj('BaseComponent', lambda d: not (in_subtree(a.child_component_list[i], d) and in_subtree(a.child_component_list[j], d))))))))")
+define("rank_along_desc()",
+       "forall_obj('BaseComponent', lambda c: forall_obj('BaseComponent', lambda d: implies(in_subtree(c, d), d is c or ghost_int('crank', c) < ghost_int('crank', d))))")
+
+define("nodup(L)", "forall_int(0, len(L), lambda i: forall_int(0, len(L), lambda j: implies(L[i] is L[j], i == j)))")
+
+contract("BaseWorkplace.set_placed_component", props=["C13"],
+         types={"placed_component": "Ref(BaseComponent)", "set_to_all_children_components": "Bool"},
+         requires=["placed_component is not None", "comp_tree_wf()"],
+         ensures=[("listed", "placed_component in self.placed_component_list"),
+                  ("kept", "forall(old(self.placed_component_list), lambda e: e in self.placed_component_list)"),
+                  ("only-subtree-added", "forall(self.placed_component_list, lambda e: e in old(self.placed_component_list) or in_subtree(placed_component, e))"),
+                  ("already-listed-is-a-no-op", "implies(old(placed_component in self.placed_component_list), seq_eq(self.placed_component_list, old(self.placed_component_list)))"),
+                  ("children-listed", "implies(set_to_all_children_components and not old(placed_component in self.placed_component_list),"
+                                      " forall(placed_component.child_component_list, lambda ch: ch in self.placed_component_list))"),
+                  ("listed-once", "implies(old(nodup(self.placed_component_list)), nodup(self.placed_component_list))")],
+         modifies=["BaseWorkplace.placed_component_list@self"],
+         loops={0: [("listed", "placed_component in self.placed_component_list"),
+                    ("kept", "forall(old(self.placed_component_list), lambda e: e in self.placed_component_list)"),
+                    ("only-subtree-added", "forall(self.placed_component_list, lambda e: e in old(self.placed_component_list) or in_subtree(placed_component, e))"),
+                    ("done", "forall_int(0, _i, lambda k: placed_component.child_component_list[k] in self.placed_component_list)"),
+                    ("listed-once", "implies(old(nodup(self.placed_component_list)), nodup(self.placed_component_list))"),
+                    ("frame", "unchanged_except('BaseWorkplace.placed_component_list', self)"),
+                    ("flag", "set_to_all_children_components")]})
+
+contract("BaseWorkplace.remove_placed_component", props=["C13", "C05"],
+         types={"placed_component": "Ref(BaseComponent)", "remove_to_all_children_components": "Bool"},
+         requires=["placed_component is not None", "comp_tree_wf()", "rank_along_desc()",
+                   # list.remove raises ValueError otherwise (D17): the whole subtree is listed here, and it is a tree
+                   "placed_component in self.placed_component_list",
+                   "implies(remove_to_all_children_components, subtree_is_tree(placed_component)"
+                   " and forall_obj('BaseComponent', lambda d: implies(in_subtree(placed_component, d), d in self.placed_component_list)))"],
+         ensures=[("subset", "forall(self.placed_component_list, lambda e: e in old(self.placed_component_list))"),
+                  ("only-subtree-removed", "forall(old(self.placed_component_list), lambda e: e in self.placed_component_list or in_subtree(placed_component, e))"),
+                  ("shorter", "len(self.placed_component_list) < old(len(self.placed_component_list))"),
+                  ("gone", "implies(old(nodup(self.placed_component_list)), not (placed_component in self.placed_component_list))"),
+                  ("whole-subtree-gone", "implies(old(nodup(self.placed_component_list)) and remove_to_all_children_components,"
+                                         " forall_obj('BaseComponent', lambda d: implies(in_subtree(placed_component, d), not (d in self.placed_component_list))))"),
+                  ("listed-once", "implies(old(nodup(self.placed_component_list)), nodup(self.placed_component_list))")],
+         modifies=["BaseWorkplace.placed_component_list@self"],
+         loops={0: [("subset", "forall(self.placed_component_list, lambda e: e in old(self.placed_component_list))"),
+                    ("only-subtree-removed", "forall(old(self.placed_component_list), lambda e: e in self.placed_component_list or in_subtree(placed_component, e))"),
+                    ("shorter", "len(self.placed_component_list) < old(len(self.placed_component_list))"),
+                    ("rest-still-listed", "forall_int(_i, _n, lambda k: forall_obj('BaseComponent', lambda d: implies(in_subtree(placed_component.child_component_list[k], d), d in self.placed_component_list)))"),
+                    ("gone", "implies(old(nodup(self.placed_component_list)), not (placed_component in self.placed_component_list)"
+                             " and forall_int(0, _i, lambda k: forall_obj('BaseComponent', lambda d: implies(in_subtree(placed_component.child_component_list[k], d), not (d in self.placed_component_list)))))"),
+                    ("listed-once", "implies(old(nodup(self.placed_component_list)), nodup(self.placed_component_list))"),
+                    ("frame", "unchanged_except('BaseWorkplace.placed_component_list', self)"),
+                    ("flag", "remove_to_all_children_components")]})
+
+# ---------------------------------------------------------------- the placement block of __allocate (one execution, for one task)
+define("subtree_listed(c)", "implies(c.placed_workplace is not None, forall_obj('BaseComponent', lambda d: implies(in_subtree(c, d), d in c.placed_workplace.placed_component_list)))")
+define("tc_moved(task)", "task.target_component is not None and task.target_component.placed_workplace is not old(task.target_component.placed_workplace)")
+define("used_space(wp)", "sum_of(wp.placed_component_list, lambda c: c.space_size)")
+contract("BaseProject.__allocate@placement", props=["C13"],
+         types={"task": "Ref(BaseTask)", "target_workplace_id_list": "List[Str]"},
+         requires=["task is not None",
+                   "forall(task.allocated_workplace_list, lambda wp: wp is not None)",
+                   "forall_obj('BaseComponent', lambda c: forall(c.targeted_task_list, lambda t: t is not None) and forall(c.child_component_list, lambda x: x is not None)"
+                   "   and forall(c.parent_component_list, lambda x: x is not None))",
+                   "forall_obj('BaseWorkplace', lambda wp: forall(wp.placed_component_list, lambda c: c is not None) and forall(wp.facility_list, lambda f: f is not None))",
+                   "comp_tree_wf()", "rank_along_desc()",
+                   # what remove_placed_component needs (list.remove raises otherwise, D17): the placed subtree is listed where it is placed
+                   "implies(task.target_component is not None, subtree_is_tree(task.target_component) and subtree_listed(task.target_component))",
+                   # the assembly branch (an unplaced parent whose children are placed on their own; it edits a list while iterating it) is excluded
+                   "implies(task.target_component is not None and task.target_component.placed_workplace is None,"
+                   " forall(task.target_component.child_component_list, lambda ch: ch.placed_workplace is None))"],
+         ensures=[("moves-only-while-no-task-working", "implies(tc_moved(task), forall(task.target_component.targeted_task_list, lambda t: t.state != BaseTaskState.WORKING))"),
+                  # stated through the candidate list (the new workplace IS one of the task's workplaces): same content, easier for the solver
+                  ("conveyor-rule", "implies(tc_moved(task), exists(task.allocated_workplace_list, lambda w: w is task.target_component.placed_workplace"
+                        " and (len(w.input_workplace_list) == 0 or old(task.target_component.placed_workplace) is None"
+                        "      or old(task.target_component.placed_workplace) in w.input_workplace_list)))"),
+                  ("only-into-a-workplace-of-the-task", "implies(tc_moved(task), task.target_component.placed_workplace in task.allocated_workplace_list"
+                        " and task.target_component.placed_workplace.ID in target_workplace_id_list)"),
+                  ("capacity-checked-on-entry", "implies(tc_moved(task), let(task.target_component.placed_workplace, lambda w:"
+                        " old(used_space(w)) + task.target_component.space_size < w.max_space_size + 1e-8))"),
+                  ("listed-where-placed", "implies(tc_moved(task), exists(task.allocated_workplace_list, lambda w: w is task.target_component.placed_workplace"
+                        " and task.target_component in w.placed_component_list))"),
+                  ("delisted-where-it-was", "implies(tc_moved(task) and old(task.target_component.placed_workplace) is not None"
+                        " and old(nodup(task.target_component.placed_workplace.placed_component_list)),"
+                        " not (task.target_component in old(task.target_component.placed_workplace).placed_component_list))"),
+                  ("whole-subtree-relabelled", "implies(tc_moved(task), forall_obj('BaseComponent', lambda d: implies(in_subtree(task.target_component, d),"
+                        " d.placed_workplace is task.target_component.placed_workplace)))"),
+                  # C13(a) for nested products: wherever a component is placed, its whole subtree is listed there (what the next removal relies on)
+                  ("placed-subtrees-stay-listed", "implies(old(forall_obj('BaseComponent', lambda c: subtree_listed(c))), forall_obj('BaseComponent', lambda c: subtree_listed(c)))"),
+                  ("other-components-stay", "forall_obj('BaseComponent', lambda d: implies(task.target_component is None or not in_subtree(task.target_component, d),"
+                        " d.placed_workplace is old(d.placed_workplace)))"),
+                  ("other-workplaces-untouched", "forall_obj('BaseWorkplace', lambda wp: implies(task.target_component is None"
+                        " or (wp is not task.target_component.placed_workplace and wp is not old(task.target_component.placed_workplace)),"
+                        " seq_eq(wp.placed_component_list, old(wp.placed_component_list))))")],
+         modifies=["BaseComponent.placed_workplace", "BaseWorkplace.placed_component_list"],
+         loops={0: [("nothing-moved-yet", "unchanged('BaseComponent.placed_workplace') and unchanged('BaseWorkplace.placed_component_list')")],
+                1: [("nothing-removed", "unchanged('BaseComponent.placed_workplace') and unchanged('BaseWorkplace.placed_component_list')")],
+                2: [("excluded", "True")]},
+         unreachable_loops=[2],
+         note="block of BaseProject.__allocate (source.BLOCKS): one execution for one task; loop #2 excluded by the last precondition")
+
+contract("BaseWorkplace.get_total_workamount_skill", props=["C13", "C11"], pure=True, types={"task_name": "Str"}, returns="Real",
+         requires=["forall(self.facility_list, lambda f: f is not None)"],
+         ensures=[("def", "result == sum_of(self.facility_list, lambda f: ite(has_skill(f, task_name), f.workamount_skill_mean_map[task_name], 0.0))")],
+         modifies=[],
+         loops={0: [("acc", "sum_skill_point == sum_upto(self.facility_list, lambda f: ite(has_skill(f, task_name), f.workamount_skill_mean_map[task_name], 0.0), _i)")]})
